@@ -178,7 +178,7 @@ class BlockParser:
 		end_tokens_of_element = f'{brackets}{delimiter}'
 		other_tokens = ''.join([pair for pair in cls._all_pair if pair != brackets])
 		while index < len(text):
-			if text[index] in other_tokens:
+			if text[index] in other_tokens and not cls._is_operator(text, index):
 				index = cls._skip_other_block(text, other_tokens, index)
 				continue
 
@@ -193,6 +193,27 @@ class BlockParser:
 			index += 1
 
 		return Kinds.End, index, -1
+
+	@classmethod
+	def _is_operator(cls, text: str, index: int) -> bool:
+		"""山括弧が演算子(比較/シフト/アロー)か判定
+
+		Args:
+			text: 解析対象の文字列
+			index: 判定位置
+		Returns:
+			True = 演算子(括弧として扱わない)
+		Note:
+			演算子は前後に空白を伴って出力される(`a < b`, `a << 2`, `a >= b`)のに対し、テンプレート引数の括弧は識別子に密着する(`std::vector<int>`)
+		"""
+		before = text[index - 1] if index > 0 else ''
+		after = text[index + 1] if index + 1 < len(text) else ''
+		if text[index] == '<':
+			return before in ' <' or after in ' =<'
+		elif text[index] == '>':
+			return before in ' -' or after == '=' or (before == '>' and index > 1 and text[index - 2] == ' ')
+		else:
+			return False
 
 	@classmethod
 	def _skip_other_block(cls, text: str, other_tokens: str, begin: int) -> int:
@@ -210,7 +231,7 @@ class BlockParser:
 		while index < len(text):
 			# 引用符の内側は文字列であり、対応する引用符以外の括弧・引用符は入れ子として数えない
 			in_quote = len(other_closes) > 0 and other_closes[-1] in '"\''
-			if text[index] in other_tokens and (not in_quote or text[index] == other_closes[-1]):
+			if text[index] in other_tokens and not cls._is_operator(text, index) and (not in_quote or text[index] == other_closes[-1]):
 				other_index = other_tokens.find(text[index])
 				if len(other_closes) > 0 and other_closes[-1] == other_tokens[other_index]:
 					other_closes.pop()
@@ -362,7 +383,7 @@ class BlockParser:
 		index = 0
 		begin = 0
 		while index < len(text):
-			if text[index] in open_tokens:
+			if text[index] in open_tokens and not cls._is_operator(text, index):
 				index = cls._skip_other_block(text, other_tokens, index)
 				continue
 
